@@ -482,6 +482,7 @@ class Interp:
     def _resolve(self, store, frame, pl):
         local, proj = pl
         items = [("L", frame.obj(local), ())]
+        idx = None
         for tok in proj:
             k = tok[0]
             new = []
@@ -511,6 +512,12 @@ class Interp:
                 key = name
             elif k == "i":
                 key = "[*]"
+                if len(tok) > 2 and tok[1] == "l":
+                    c = const_of(self.read_place(store, frame, (tok[2], ())))
+                    if c is not None:
+                        idx = V("Const(%s)" % c)
+                elif len(tok) > 2 and tok[1] == "c":
+                    idx = V("Const(%s%s_usize)" % ("-" if tok[3] else "", tok[2]))
             else:
                 continue
             for it in items:
@@ -519,6 +526,8 @@ class Interp:
                 else:
                     new.append(("V", vfield(it[1], key)))
             items = new
+        if idx is not None:   # element at a constant position: the position is remembered on the value read ('#idx')
+            items.append(("V", Val(frozenset(), {"#may:idx": idx})))
         return items
 
     def read_place(self, store, frame, pl):
